@@ -5,6 +5,8 @@ inside createPRISM are covered as well): k is snapshotted, the output compared w
 evaluated term by term by refmodel, sum rules are asserted.  The workload adds the k-independence probes,
 the small-k / large-k limits, FP-trap replicas and the constructor validity rules of DiscreteKoyama.
 """
+import copy
+import pickle
 import math
 
 import numpy as np
@@ -319,6 +321,25 @@ def run_case(ctx, case):
         obj.calculate(np.array(k[::-1]))
         if not np.array_equal(np.asarray(raw), keep, equal_nan=True):
             ctx.violation('omega:%s-earlier-result-overwritten' % kind, '%s: an array returned by calculate changed after later evaluations' % desc)
+    # ---- a copy of the object (table assignment and PRISM.__init__ deep-copy every omega; a job may be pickled) evaluates like the original
+    ctx.hook('copy_probe')
+    for how in ('deepcopy', 'pickle', 'table'):
+        try:
+            if how == 'deepcopy':
+                cp = copy.deepcopy(obj)
+            elif how == 'pickle':
+                cp = pickle.loads(pickle.dumps(obj))
+            else:
+                tb = pyPRISM.PairTable(['A'], 'omega')
+                tb['A', 'A'] = obj
+                cp = tb['A', 'A']
+            with np.errstate(all='ignore'):
+                oc = np.array(cp.calculate(np.array(k)), dtype=float)
+        except Exception as e:   # noqa
+            ctx.violation('omega:%s-copy-unusable' % kind, '%s: a %s copy cannot be evaluated: %s: %s' % (desc, how, type(e).__name__, str(e)[:100]))
+            continue
+        if oc.shape != out.shape or not np.allclose(oc, out, rtol=0, atol=1e-9 * max(N, 1), equal_nan=True):
+            ctx.violation('omega:%s-copy-differs' % kind, '%s: a %s copy evaluates differently from the object it was copied from (max diff %.3g)' % (desc, how, float(np.nanmax(np.abs(oc - out))) if oc.shape == out.shape else np.inf))
     # ---- k-independence: subsets, reversed order, single wavenumbers
     ctx.hook('k_independence_probe')
     tol = 1e-9 * max(N, 1)
